@@ -213,6 +213,19 @@ def run(ctx):
         for ops in pairwise(ctx.rng, f, names, tables, per_book):
             hist.append((f, p, names, ops))
             ctx.count("pairwise")
+    # the option in force survives every read call, also a call that fails on one sheet:
+    # [hdr n, X, range s] for every kind of call X (generated books first: some hold a sheet
+    # whose read fails)
+    gen_first = [b for b in books if os.path.basename(b[1]).startswith("g")] + [b for b in books if not os.path.basename(b[1]).startswith("g")]
+    for (f, p, names, tables) in gen_first[:ctx.scale(40, 400)]:
+        if not names:
+            continue
+        v = [x for x in vocabulary(f, names, tables) if not x.startswith("hdr")]
+        ctx.rng.shuffle(v)
+        for x in v[:ctx.scale(6, 100)]:
+            n = ctx.rng.choice(names)
+            hist.append((f, p, names, ["hdr %s" % ctx.rng.choice(["1", "2", "3"]), x, "range " + n] + (["ref " + n] if f in HAS_REF else [])))
+            ctx.count("option_survives")
     # 1. the histories on one opened workbook each
     hl = ["h%d\topen\t%s\t%s\t%s" % (k, f, p, ";".join(ops)) for k, (f, p, names, ops) in enumerate(hist)]
     himpl = ctx.run_impl(hl)
